@@ -95,12 +95,20 @@ func aeReqStr(q *raft.AppendEntriesRequest) string {
 func cmpNode(rep *Report, prop, line, what string, impl NodeSt, modelText string, keys []string) {
 	is := ParseKV(impl.String())
 	ms := ParseKV(splitSections(modelText)[0])
+	// the follower table is a Go map: compare it as a set
+	for _, kv := range []map[string]string{is, ms} {
+		if f, ok := kv["fol"]; ok && f != "-" && f != "" {
+			p := strings.Split(f, ";")
+			sort.Strings(p)
+			kv["fol"] = strings.Join(p, ";")
+		}
+	}
 	if d := DiffKV(is, ms, keys); len(d) > 0 {
 		rep.Add(Finding{Kind: "mismatch", Property: prop, Case: line, Impl: impl.String(), Model: modelText, Diff: append([]string{what}, d...)})
 	}
 }
 
-var electKeys = []string{"role", "term", "vote", "pw", "log", "ci"}
+var electKeys = []string{"role", "term", "vote", "pw", "log", "ci", "fol"}
 
 func TestE3Election(t *testing.T) {
 	rep := NewReport("E3-election")
@@ -160,7 +168,13 @@ func TestE3Election(t *testing.T) {
 				Log: lg, Cfg: cfg, Com: cfg, SV: true, ET: 300, LD: 100, LC: now - []int64{0, 150, 299, 300, 301, 900}[rng.Intn(6)], LE: now - 1,
 				PW: rng.Bool(), CI: 0, LA: 0}
 			for _, m := range cfg.Members {
-				pre.Fol = append(pre.Fol, Fol{ID: m[0], Next: 1})
+				// replication state left over from an earlier leadership of this node (it is only reset in becomeLeader)
+				f := Fol{ID: m[0], Next: 1}
+				if rng.Chance(70) {
+					f.Next = 1 + uint64(rng.Intn(len(terms)+2))
+					f.Match = uint64(rng.Intn(len(terms) + 1))
+				}
+				pre.Fol = append(pre.Fol, f)
 			}
 			if err := installState(node, pre); err != nil {
 				t.Fatal(err)
@@ -185,6 +199,10 @@ func TestE3Election(t *testing.T) {
 				rep.Hit("election-single-leader")
 			}
 			cmpNode(rep, "C02", line, "after election()", post, model, electKeys)
+			for _, b := range oracleDurableTV(pre, post, eff) {
+				rep.Add(Finding{Kind: "oracle", Property: "C08", Oracle: strings.Replace(b, "the handler returned", "election() returned", 1), Case: line, Impl: post.String(),
+					Signature: map[string]string{"oracle": "term-vote-durable-before-reply", "handler": "election"}})
+			}
 			if ie, me := FilterEffects("eff="+eff, StorageEffects), FilterEffects(msec[1], StorageEffects); ie != me {
 				rep.Add(Finding{Kind: "mismatch", Property: "C02", Case: line, Impl: ie, Model: me, Diff: []string{"storage effects of election() differ"}})
 			}
@@ -219,6 +237,7 @@ func TestE3Election(t *testing.T) {
 				round = strings.Split(strings.Split(r, ";")[0], ".")[0]
 			}
 			rng.Shuffle(len(calls), func(i, j int) { calls[i], calls[j] = calls[j], calls[i] })
+			cur := post
 			for _, c := range calls {
 				if c.Kind != "RV" {
 					s.Fail(c)
@@ -246,11 +265,17 @@ func TestE3Election(t *testing.T) {
 				synctest.Wait()
 				rline := fmt.Sprintf("VOTEREPLY | %d | %s | peer=%d round=%s | %s | %s", now, mnode, c.To, round, rvReqStr(c.RV), respS)
 				ans, _ := drv.Ask(rline)
+				prev := cur
 				post := observeState(node, 300, 100)
+				cur = post
 				eff := node.Rec.String()
 				rep.Case(rline, respS != "err")
 				as := splitSections(ans)
 				cmpNode(rep, "C02", rline, "after the vote reply", post, ans, electKeys)
+				for _, b := range oracleDurableTV(prev, post, eff) {
+					rep.Add(Finding{Kind: "oracle", Property: "C08", Oracle: strings.Replace(b, "the handler returned", "the vote reply was processed", 1), Case: rline, Impl: post.String(),
+						Signature: map[string]string{"oracle": "term-vote-durable-before-reply", "handler": "vote-reply"}})
+				}
 				if ie, me := FilterEffects("eff="+eff, StorageEffects), FilterEffects(as[1], StorageEffects); ie != me {
 					rep.Add(Finding{Kind: "mismatch", Property: "C02", Case: rline, Impl: ie, Model: me, Diff: []string{"storage effects of the vote reply differ"}})
 				}
